@@ -30,6 +30,19 @@ def isinstance_bool(eng, st, v, cls):
         return z3.Or([isinstance_bool(eng, st, v, c) for c in cls.items])
     if isinstance(cls, SFunc) and cls.what == "typeof":
         w = cls.payload
+        if isinstance(v, SDyn) and isinstance(w, (SRef, SOptRef)):
+            kw = w.kind[4:] if isinstance(w, SRef) else w.inner[4:]
+            rv = PyVal.rval(v.t)
+            cv, cw = eng.cls_term(st, rv), eng.cls_term(st, w.t)
+            pairs = [(a_, b_) for a_ in eng.repo.classes for b_ in eng.concrete_subclasses(kw) if eng.is_subclass(a_, b_)]
+            return z3.And(PyVal.is_RefV(v.t), z3.Or([z3.And(cv == eng.class_ids[a_], cw == eng.class_ids[b_]) for a_, b_ in pairs] + [z3.BoolVal(False)]))
+        if isinstance(v, (SRef, SOptRef)) and isinstance(w, SDyn):
+            kv = v.kind[4:] if isinstance(v, SRef) else v.inner[4:]
+            rw = PyVal.rval(w.t)
+            cv, cw = eng.cls_term(st, v.t), eng.cls_term(st, rw)
+            pairs = [(a_, b_) for a_ in eng.concrete_subclasses(kv) for b_ in eng.repo.classes if eng.is_subclass(a_, b_)]
+            # type(w) for a non-object w (str, int, None, list ...) is never a repo class
+            return z3.And(PyVal.is_RefV(w.t), z3.Or([z3.And(cv == eng.class_ids[a_], cw == eng.class_ids[b_]) for a_, b_ in pairs] + [z3.BoolVal(False)]))
         if isinstance(v, (SRef, SOptRef)) and isinstance(w, (SRef, SOptRef)):
             kv = v.kind[4:] if isinstance(v, SRef) else v.inner[4:]
             kw = w.kind[4:] if isinstance(w, SRef) else w.inner[4:]
